@@ -35,6 +35,7 @@ type Clause struct {
 }
 
 type LoopSpec struct {
+	Assumed []Clause // `loop k assume e`: assumed at the head, not checked
 	Step     []Clause
 	Inv      []Clause
 	Unroll   int
@@ -650,6 +651,15 @@ func ParseContracts(fset *token.FileSet, filename string, src []byte, cs *Contra
 						return err
 					}
 					ls.Inv = append(ls.Inv, c)
+				case "assume":
+					// loop k assume <expr>: a fact assumed at the loop head and NOT checked (listed as an
+					// assumption of the unit): for invariants that depend on parts of the code outside the
+					// contract's reach
+					c, err := mkClause(body)
+					if err != nil {
+						return err
+					}
+					ls.Assumed = append(ls.Assumed, c)
 				case "step":
 					// loop k step <expr>: holds at the end of every iteration; atiter(e) is e with
 					// memory as it was at the start of that iteration
